@@ -165,6 +165,19 @@ def classify(src, out):
         if a == "." and b.isdigit():
             return "space-inserted:..digit", k
         return "space-inserted:%s%s" % (char_class(a) if a not in "].[->" else a, char_class(b) if b not in "].[-=" else b), k
+    if k < len(src) and src[k] == ";" and out[k:k + 6] == src[k + 1:k + 7]:
+        # a single `;` is missing here (other differences may follow): the one after a last statement?
+        try:
+            toks, _ = L.lex(src.encode("utf-8"))
+        except L.LexError:
+            toks = []
+        pos = len(src[:k].encode("utf-8"))
+        idx = next((i for i, t in enumerate(toks) if t.start == pos), None)
+        if idx is not None:
+            nxt = toks[idx + 1].text if idx + 1 < len(toks) else b"<eof>"
+            if nxt in (b"end", b"until", b"else", b"elseif", b"<eof>"):
+                return "dropped:last-semicolon", k
+        return "dropped:;", k
     # a piece of the source is missing: look at what was removed (common prefix / suffix stripped)
     suf = 0
     while suf < min(len(src), len(out)) - k and src[len(src) - 1 - suf] == out[len(out) - 1 - suf]:
@@ -278,7 +291,7 @@ def run(ctx):
             identical += 1
         cases.append((i, label, s, r["out"], r["trace"]))
     bad = C.run_coq_cases(ctx.prop, PREAMBLE, [(c[0], coq_case(c[2], c[3], c[4])) for c in cases],
-                          chunk=max(4, len(cases) // (C.NPROC * 2) + 1))
+                          chunk=min(24, max(4, len(cases) // (C.NPROC * 2) + 1)))
     diag = dict(bad)
     by_id = {c[0]: c for c in cases}
     model_bad = []
